@@ -289,6 +289,13 @@ template <class GG, bool HAS = (Info<GG>::rot != NONE)> struct Norm {
       for (int i = 0; i < NR; ++i) c(I::coff + i) = (S)(c(I::coff + i) * (S)(1.0 + s * (double)manif::Constants<S>::eps));
       one(c, "normalize_thr");
     }
+    // unit data scaled by 1 +- 10^e, e log-uniform in [-13, 0.3]: every size of norm error between the threshold and gross
+    for (int k = 0; k < 24 + reps; ++k) {
+      Coef c = units[(ix++) % units.size()];
+      double f = 1.0 + r.sign() * std::pow(10.0, r.u(-13.0, 0.3)); if (f < 0.05) f = 0.05;
+      for (int i = 0; i < NR; ++i) c(I::coff + i) = (S)(c(I::coff + i) * (S)f);
+      one(c, "normalize_scaled");
+    }
     for (double sc : {1e-8, 1e-3, 0.5, 3.0, 1e3, 1e6}) for (int k = 0; k < 1 + reps / 4; ++k) {   // any non-degenerate data
       Coef c = units[(ix++) % units.size()];
       for (int i = 0; i < NR; ++i) c(I::coff + i) = (S)(r.u(-1, 1) * sc);
